@@ -79,6 +79,7 @@ type Gen struct {
 	retOrd map[*ssa.Return]int
 	droppable map[int]bool
 	constLen  map[string]int64 // SMT names of slice values whose length is a known constant
+	maskBit   map[string]string // SMT names of values of the form 1<<k -> k
 	hyps      []*hyp
 	seenIdx   []string
 	seenSet   map[string]bool
@@ -131,7 +132,7 @@ func newGen(ctx *Ctx, fn *ssa.Function, con *Contract) *Gen {
 	g := &Gen{Ctx: ctx, fn: fn, con: con, key: funcKey(fn),
 		vals: map[ssa.Value]*SV{}, exit: map[*ssa.BasicBlock]*State{}, reach: map[*ssa.BasicBlock]string{},
 		edgeOK: map[[2]int]string{}, loopOf: map[*ssa.BasicBlock]*loopInfo{}, paramSV: map[string]*SV{},
-		safeCtr: map[string]int{}, unmodelled: map[string]bool{}, allocsByName: map[string][]*ssa.Alloc{}, constLen: map[string]int64{},
+		safeCtr: map[string]int{}, unmodelled: map[string]bool{}, allocsByName: map[string][]*ssa.Alloc{}, constLen: map[string]int64{}, maskBit: map[string]string{},
 		backEdges: map[[2]int]bool{}, loopDec: map[*loopInfo]string{}, loopHeadState: map[*loopInfo]*State{}}
 	g.pa = con.Level == "PA"
 	return g
@@ -729,6 +730,7 @@ func (g *Gen) loopHead(li *loopInfo, st *State, reach string) *State {
 	}
 	// inv-init
 	env := g.envAt(st, nil)
+	env.localsFirst = true
 	for i, cl := range spec.Invariants {
 		if !clauseActive(cl, g.fmode) {
 			continue
@@ -783,6 +785,7 @@ func (g *Gen) loopHead(li *loopInfo, st *State, reach string) *State {
 		}
 	}
 	env2 := g.envAt(ns, nil)
+	env2.localsFirst = true
 	for _, cl := range spec.Invariants {
 		if !clauseActive(cl, g.fmode) {
 			continue
@@ -807,6 +810,7 @@ func (g *Gen) backEdge(li *loopInfo, st *State, cond string, from *ssa.BasicBloc
 		return
 	}
 	env := g.envAt(st, nil)
+	env.localsFirst = true
 	pos := li.pos
 	for i, cl := range spec.Invariants {
 		if !clauseActive(cl, g.fmode) {
@@ -1122,6 +1126,9 @@ func (g *Gen) define(v ssa.Value, term string) *SV {
 	g.addFact("(= " + n + " " + term + ")")
 	if cl, ok := g.constLen[term]; ok {
 		g.constLen[n] = cl
+	}
+	if mb, ok := g.maskBit[term]; ok {
+		g.maskBit[n] = mb
 	}
 	sv := &SV{S: n, T: t}
 	g.vals[v] = sv
